@@ -233,6 +233,8 @@ def sim_behaviours(c, res, cfg, tag, pre):
 OPEN = [
     ("byzq", "MC_DposLib_byzq.cfg", "LibQuorum", "one Byzantine producer makes its own block irreversible (free Confirms)"),
     ("byza", "MC_DposLib_byza.cfg", "Agreement", "two nodes hold conflicting irreversible blocks, 1 of 4 producers Byzantine"),
+    # finding F5 (UNSAVED): the LIB raised by the Update calls of a reorganisation that is given up is not saved
+    ("unsaved", "MC_DposLib_unsaved.cfg", "RestoreEqualsRecompute", "abandoned reorganisation raises the LIB in memory only; a restart brings the older LIB back"),
 ]
 # The model of the code BEFORE the repairs b495bde5 / a4f2be36 / c846cf0d (Fixes = {}): documented counterexamples, run in the
 # thorough tier for the record only (a self-test of the Fixes switches); they are not replayed and cannot change the verdict
@@ -252,7 +254,7 @@ def run(c):
               "property evaluated on the real node) or one pairwise LIB comparison between two nodes; distinct = distinct (behaviour, node, step)")
     c.assumptions = ["blocks reach a node parents first", "all blocks valid and empty; BP set = genesis BP list",
                      "restarts at step boundaries on the in-memory journaling store", "TLC 1.8.0"]
-    simdir = {k: os.path.join(c.work, "sim_" + k) for k in ("s3", "s4")}
+    simdir = {k: os.path.join(c.work, "sim_" + k) for k in ("s3", "s4", "s4i")}
     for d in simdir.values():
         os.makedirs(d, exist_ok=True)
     nsim, dsim = (40, 45) if quick else (400, 60)
@@ -268,12 +270,14 @@ def run(c):
                   ("t4s", "MC_DposLib_T4s.cfg", "tree T4s (reorganisation away from a branch that carried a proposal), 2 restarts: all properties"),
                   ("t4e", "MC_DposLib_T4e.cfg", "tree T4e (fork exactly at the LIB block), 2 restarts: all properties"),
                   ("t3w", "MC_DposLib_T3w.cfg", "tree T3w (chain longer than the rebuild window, fork at the tip), 2 restarts: all properties"),
-                  ("t4i", "MC_DposLib_T4i.cfg", "trees T4i (longer branch with a block that fails in execute() at its 1st/2nd/3rd position; in order and children first), 2 restarts: all properties")]
+                  ("t4i", "MC_DposLib_T4i.cfg", "trees T4i (longer branch with a block that fails in execute() at its 1st/2nd/3rd position; in order and children first), no restart: all properties"),
+                  ("t4ii", "MC_DposLib_T4i_intended.cfg", "PROPOSED repair 'persist' (status saved after a failed block): trees T4i, 2 restarts: all properties")]
     jobs = [(k, cfg, 3 if k == "mc" else 1, 1700, None) for (k, cfg, _) in CLEAN]
     jobs += [(k, cfg, 1, 900, None) for (k, cfg, _) in GENS]
     jobs += [
         ("s3", "Sim_DposLib.cfg", 1, 900, ["-simulate", "file=%s/t,num=%d" % (simdir["s3"], nsim), "-depth", str(dsim), "-seed", str(c.seed * 7919 + 3)]),
         ("s4", "Sim_DposLib4.cfg", 1, 900, ["-simulate", "file=%s/t,num=%d" % (simdir["s4"], nsim), "-depth", str(dsim + 10), "-seed", str(c.seed * 7919 + 4)]),
+        ("s4i", "Sim_DposLib4i.cfg", 1, 900, ["-simulate", "file=%s/t,num=%d" % (simdir["s4i"], nsim), "-depth", str(dsim + 10), "-seed", str(c.seed * 7919 + 6)]),
     ] + [(k, cfg, 1, 600, None) for (k, cfg, _, _) in OPEN]
     if not quick:
         jobs += [(k, cfg, 1, 600, None) for (k, cfg, _, _) in HISTORIC]
@@ -301,19 +305,20 @@ def run(c):
         scen = []
         for (k, cfg, prop, what) in OPEN:
             r = R[k]
-            c.add_tlc(r, "OPEN finding F4 (Confirms not validated), expected counterexample to %s: %s" % (prop, what))
+            c.add_tlc(r, "finding (F4 Confirms not validated / F5 status not saved), expected counterexample to %s: %s" % (prop, what))
             if r.violation != prop or not r.error_trace:
                 raise vlib.Infra("the configuration %s was expected to violate %s, TLC says: %s\n%s" % (cfg, prop, r.violation, r.out[-2000:]))
             scen.append(behaviour_from_error_trace(r, cfg, "open-" + k))
-        c.notes.append("open finding F4: TLC counterexamples to %s replayed on the real code" % ", ".join("%s (%s)" % (p, k) for (k, _, p, _) in OPEN))
+        c.notes.append("findings F4/F5: TLC counterexamples to %s replayed on the real code" % ", ".join("%s (%s)" % (p, k) for (k, _, p, _) in OPEN))
         gen = []
         for (k, cfg, tag) in GENS:
             c.require_ok(R[k], "all properties + transition enumeration, one observer, one restart: " + cfg)
-            gb, ntr, nst, tot = graph_behaviours(R[k], cfg, tag, rng)
-            c.notes.append("%s: %d transitions, %d states, %d covering behaviours (all replayed)" % (cfg, ntr, nst, tot))
+            gb, ntr, nst, tot = graph_behaviours(R[k], cfg, tag, rng, max_paths=(350 if quick and k == "gen4i" else None))
+            c.notes.append("%s: %d transitions, %d states, %d covering behaviours (%s replayed)" % (cfg, ntr, nst, tot, "all" if len(gb) == tot else len(gb)))
             gen += gb
         s3 = sim_behaviours(c, R["s3"], "Sim_DposLib.cfg", "sim3", simdir["s3"])
         s4 = sim_behaviours(c, R["s4"], "Sim_DposLib4.cfg", "sim4", simdir["s4"])
+        s4 += sim_behaviours(c, R["s4i"], "Sim_DposLib4i.cfg", "sim4i", simdir["s4i"])
         gf = []
         if not quick:
             c.require_ok(R["genfull"], "transition enumeration: full protocol, 3 nodes, 3 blocks, 1 restart")
